@@ -35,16 +35,19 @@ OpsViol(r) ==
       valid == ValidOps(r.old, r.new, r.os, r.oe, r.ns, r.ne, ops)
       same == oldR = newR
       nodl == r.fuel = -2
+      \* oracles that are quadratic in the input size are only evaluated up to fixed sizes
+      lcsOk == N <= 4000 /\ M <= 4000 /\ N * M <= 400000
+      anchOk == N + M <= 800
       L == LcsLen(oldR, newR)
   IN (IF valid THEN {} ELSE {"valid"})
      \cup (IF valid /\ ~ApplyOk(r.old, r.new, r.os, r.oe, r.ns, r.ne, ops) THEN {"apply"} ELSE {})
      \cup (IF same /\ (\E i \in 1..Len(ops) : ~IsEqual(ops[i])) THEN {"identical"} ELSE {})
      \cup (IF N = 0 /\ M = 0 /\ Len(ops) > 0 THEN {"identical"} ELSE {})
      \cup (IF r.ratio_in01 /\ (r.ratio_one <=> same) THEN {} ELSE {"ratio"})
-     \cup (IF valid /\ nodl /\ r.alg \in {"myers", "lcs"}
+     \cup (IF valid /\ lcsOk /\ nodl /\ r.alg \in {"myers", "lcs"}
               /\ (Cost(ops) # N + M - 2 * L \/ EqualTotal(ops) # L)
            THEN {"minimal"} ELSE {})
-     \cup (IF valid /\ nodl /\ r.alg \in {"myers", "lcs"} /\ N + M > 0
+     \cup (IF valid /\ lcsOk /\ nodl /\ r.alg \in {"myers", "lcs"} /\ N + M > 0
               /\ Abs(r.ratio_u * (N + M) - 2000000 * L) > N + M
            THEN {"ratio_formula"} ELSE {})
      \cup (IF NoEmpty(ops) /\ Alternate(ops) /\ (valid => Latest(r.old, r.new, ops))
@@ -55,7 +58,7 @@ OpsViol(r) ==
            ELSE IF ValidOps(r.old, r.new, r.os, r.oe, r.ns, r.ne, r.ops_rep)
                    /\ ~ExactPositions(r.old, r.new, r.os, r.oe, r.ns, r.ne, r.ops_rep)
                 THEN {"exact_rep"} ELSE {})
-     \cup (IF valid /\ nodl /\ r.alg = "patience"
+     \cup (IF valid /\ anchOk /\ nodl /\ r.alg = "patience"
               /\ CoveredUnique(r.old, r.new, r.os, r.oe, r.ns, r.ne, ops) < AnchorOptimum(oldR, newR)
            THEN {"anchors"} ELSE {})
 
